@@ -91,6 +91,17 @@ def _mk_fn(tid: int, takes_ctx: bool, rec: Recorder, rng_seed: int, ctxbox: dict
     return fn
 
 
+_MODEL = []
+
+
+def _a_model():
+    if not _MODEL:
+        from pharmpy.model import Model
+
+        _MODEL.append(Model.create(name="static_input_model"))
+    return _MODEL[0]
+
+
 def _tid(task) -> int:
     return int(task.name[1:])
 
@@ -114,6 +125,9 @@ def replay_case(arg):
 
     disp.conf.dask_dispatcher = "threaded"
     rng = random.Random(seed)
+    if static_choice == ("safe", "@MODEL"):
+        # a pharmpy Model as static input: execute_workflow treats Model inputs specially, the task graph must not care
+        static_choice = ("safe", _a_model())
     rec = Recorder()
     ctxbox: dict = {}
     tasks: dict[int, object] = {}
@@ -258,7 +272,10 @@ def _run(tier, seed, v: core.Verdict, cases, hazards=True, limit=None):
     rng.shuffle(ref_cases)
     work = []
     for c in ok_cases[:n_ok]:
-        work.append((c, rng.randrange(1 << 30), ("safe", rng.choice(SAFE_STATICS))))
+        # every third case with static inputs gets a Model as the static value
+        has_st = any(op.get("st") == 1 for op in c["hist"])
+        val = "@MODEL" if has_st and rng.random() < 0.34 else rng.choice(SAFE_STATICS)
+        work.append((c, rng.randrange(1 << 30), ("safe", val)))
     for c in ref_cases[:n_ref]:
         work.append((c, rng.randrange(1 << 30), ("safe", rng.choice(SAFE_STATICS))))
     if hazards:
